@@ -71,6 +71,8 @@ class ExprMixin:
             if info.get("truthy") is not None:
                 return info["truthy"](self, v)
             return z3.BoolVal(True)
+        if ty.key == "BoundMethod":
+            return z3.BoolVal(True)
         if ty.key in self.truthy_handlers:
             return self.truthy_handlers[ty.key](self, v)
         raise Unsupported("truthiness of %s" % ty, node)
@@ -228,6 +230,9 @@ class ExprMixin:
         h = self.attr_handlers.get((ty.key, attr))
         if h:
             return h(self, base, node, st)
+        if (ty.key, attr) in self.method_handlers:
+            # a method mentioned without being called: a bound-method object (always truthy, never None)
+            return Val(TU("BoundMethod"), (base, attr))
         raise Unsupported("attribute .%s of %s" % (attr, ty), node)
 
     def class_constant(self, info, cls, attr, node):
